@@ -784,9 +784,29 @@ class DefMask:
 
 
 @reg("numpy.where")
-def _np_where(eng, node, mask):
-    """np.where(mask)[0]: the increasing list of the indices where the mask holds"""
-    if not isinstance(mask, DefMask):
+def _np_where(eng, node, mask, *choice):
+    """np.where(mask)[0]: the increasing list of the indices where the mask holds;
+    np.where(mask, a, b): the elementwise choice (concrete shape; scalars broadcast)"""
+    if len(choice) == 2 and type(mask).__name__ == "NArr":
+        NArr = type(mask)
+        def _at(v, k):
+            if type(v).__name__ == "NArr":
+                if v.shape != mask.shape:
+                    raise Unsupported("np.where with different shapes")
+                return v.data[k]
+            if isinstance(v, (int, float)) or is_sym(v):
+                return v
+            raise Unsupported("np.where operand")
+        def _pick(c, x, y):
+            if isinstance(c, bool):
+                return x if c else y
+            x = z3.RealVal(x) if isinstance(x, (int, float)) else x
+            y = z3.RealVal(y) if isinstance(y, (int, float)) else y
+            if z3.is_int(x) != z3.is_int(y):
+                x, y = (z3.ToReal(x) if z3.is_int(x) else x), (z3.ToReal(y) if z3.is_int(y) else y)
+            return z3.If(c, x, y)
+        return NArr(mask.shape, [_pick(c, _at(choice[0], k), _at(choice[1], k)) for k, c in enumerate(mask.data)])
+    if choice or not isinstance(mask, DefMask):
         raise Unsupported("np.where form")
     rows = mask.rows
     tag = f"where{eng.counters.get('where', 0)}"
